@@ -2,6 +2,8 @@ package verifsim
 
 import (
 	"fmt"
+	"os"
+	"strings"
 	"time"
 
 	mux "github.com/cbeuw/Cloak/internal/multiplex"
@@ -30,6 +32,10 @@ type C13ChurnScenario struct {
 	// the accepting side sends it late frames that sit on a stalled connection;
 	// the opener then closes it, opens one more stream, and the late frames arrive
 	LongLived bool `json:"long_lived,omitempty"`
+	// AcceptStall: the accepting application is busy (a slow dial in its accept
+	// loop) while more streams than its backlog holds (1024) are opened and
+	// written to; it resumes once every opener has written
+	AcceptStall bool `json:"accept_stall,omitempty"`
 }
 
 func genC13Churn(g *Gen) any {
@@ -39,7 +45,20 @@ func genC13Churn(g *Gen) any {
 	if g.Bool(0.35) {
 		sc.LongLived = true
 	}
+	if g.Bool(0.012) {
+		// (a dozen seconds of wall clock each: few of them; the streams beyond the
+		// backlog are opened one after the other)
+		sc.AcceptStall, sc.LongLived = true, false
+		sc.Sess.Stalls = nil // both connections deliver while the backlog fills
+		sc.NStream, sc.Batch = g.Int(1028, 1045), 64
+	}
 	for i := 0; i < sc.NStream; i++ {
+		if sc.AcceptStall {
+			// (the frames of one stream travel on different connections)
+			sc.Writes = append(sc.Writes, g.Int(2, 4))
+			sc.ServerClose = append(sc.ServerClose, g.Bool(0.7))
+			continue
+		}
 		sc.Writes = append(sc.Writes, g.Int(1, 4))
 		sc.ServerClose = append(sc.ServerClose, g.Bool(0.7))
 	}
@@ -52,7 +71,23 @@ func runC13Churn(c *Ctx, scAny any) {
 	sw := NewSessWorld(c, sc.Sess, nil, nil)
 	accepted := 0
 	churnDone, lateWritten := false, false
+	written := 0
 	simsync.Go("h:accept", func() {
+		for sc.AcceptStall && written < sc.NStream && !c.Failed() {
+			Sleep(10 * time.Millisecond)
+		}
+		if sc.AcceptStall {
+			Sleep(10 * time.Second) // beyond the stall: whatever was in flight has arrived
+			open, _ := sw.S.VerifStreamTable()
+			c.Probe(fmt.Sprintf("accept_resumed_with_%d_streams_pending", open/64*64))
+			if os.Getenv("VERIF_DEBUG_C13") != "" {
+				for _, l := range strings.Split(c.W.DumpTasks(), "\n") {
+					if strings.Contains(l, "switchboard") || strings.Contains(l, "session") {
+						fmt.Fprintln(os.Stderr, l)
+					}
+				}
+			}
+		}
 		for {
 			conn, err := sw.S.Accept()
 			if err != nil {
@@ -118,9 +153,14 @@ func runC13Churn(c *Ctx, scAny any) {
 				break // closed by the peer meanwhile
 			}
 		}
+		written++
 		// wait for the answer (or the end of the stream), then close this side
 		buf := make([]byte, 64)
-		st.SetReadDeadline(time.Now().Add(20 * time.Second))
+		if sc.AcceptStall {
+			st.SetReadDeadline(time.Now().Add(200 * time.Second))
+		} else {
+			st.SetReadDeadline(time.Now().Add(20 * time.Second))
+		}
 		st.Read(buf)
 		st.Close()
 	}
@@ -155,14 +195,14 @@ func runC13Churn(c *Ctx, scAny any) {
 			}()
 		}
 		for opened < sc.NStream {
-			for b := 0; b < sc.Batch && opened < sc.NStream; b++ {
+			for b := 0; b < sc.Batch && opened < sc.NStream && !(sc.AcceptStall && opened >= 1020 && b > 0); b++ {
 				i := opened
 				opened++
 				running++
 				simsync.Go("h:stream", func() { openOne(i) })
 			}
-			for running > 0 {
-				Sleep(time.Millisecond)
+			for running > 0 && !(sc.AcceptStall && written == opened) {
+				Sleep(25 * time.Millisecond)
 			}
 		}
 	})
@@ -222,7 +262,7 @@ func runC13Churn(c *Ctx, scAny any) {
 
 func init() {
 	register(&Family{Name: "c13-churn", Count: func(tier string) int { return map[string]int{"quick": 600, "thorough": 30000}[tier] },
-		Gen: genC13Churn, New: func() any { return &C13ChurnScenario{} }, Run: runC13Churn, VirtCap: 5 * time.Minute,
+		Gen: genC13Churn, New: func() any { return &C13ChurnScenario{} }, Run: runC13Churn, VirtCap: 5 * time.Minute, MaxSteps: 8000000,
 		Policy: func(g *Gen) simsync.PolicyConfig {
 			p := SwarmPolicy(g)
 			p.Stall = 0
